@@ -262,6 +262,27 @@ std::string run_case(Src& s, CaseInfo& ci)
     dmg.push_back(d);
   }
 
+  // an inconsistent table entry next to the relocation list: a section that is empty in the intact file is
+  // declared 1, 4 or 7 bytes long (that many bytes are inserted, so every other length stays right) and one
+  // relocation entry pointing into it is appended - a section too small to hold a pointer cannot hold one
+  for (size_t i = 0; i < nb; i++)
+  {
+    if (body_size[i] != 0)
+      continue;
+    for (uint32_t sz : {1u, 4u, 7u})
+      for (uint32_t off : {0u, 0x200u, 0x7fffff00u, 0xffffff00u})
+      {
+        Damage d;
+        d.image = image.substr(0, body_start[i]) + bytes(sz, '\0') + image.substr(body_start[i]);
+        memcpy(&d.image[6 + i * 12 + 8], &sz, 4);
+        uint32_t ref[2] = {(uint32_t) i, off};
+        d.image.append((const char*) ref, 8);
+        d.region = 800 + (int) i;
+        d.what = strf("empty section %zu declared %u bytes long, relocation entry (%zu, 0x%x) appended", i, sz, i, off);
+        dmg.push_back(d);
+      }
+  }
+
   // the same claim through the command-line tool (cli/yara.c `-C`): a few cut points per file,
   // with and without a `-d` definition on the command line; the tool must refuse the file with
   // an error message and a non-zero exit status (cuts inside the relocation table are the listed
